@@ -1,7 +1,7 @@
 (* Correspondence glue for C09: what a case is and when model and implementation agree on it. *)
 From Coq Require Import String Ascii List Bool NArith.
 Import ListNotations.
-Require Import Verif.Base.Harness Verif.Codec.JsonClean Verif.Codec.Dispatch Verif.Codec.PostProcess.
+Require Import Verif.Base.Harness Verif.Codec.JsonClean Verif.Codec.Dispatch Verif.Codec.PostProcess Verif.Codec.FileWrite.
 
 Definition B (s:string) : bytes := list_ascii_of_string s.
 Definition Ch (n:N) : ascii := ascii_of_N n.
@@ -14,6 +14,7 @@ Inductive c09_case :=
                                                  the bytes before and after the clean-up *)
 | CCompact (raw cleaned:string)               (* compact protojson output *)
 | CDispatch (path:string) (d fd:decoder)      (* decoder chosen by FromPBStringContents / by FromPB for this name *)
+| CFile (writer:string) (old:option string) (enc after:string)   (* file writer onto a path holding `old`: content after *)
 | CPost (cn:positive) (m:pmodule) (out:option pmodule).  (* compile of an import of x.pb holding m: the applications that
                                                  come out (None: the compile panicked); cn = the collector endpoint's name *)
 
@@ -21,7 +22,8 @@ Record source := {
   src_regex : re;
   src_cases : list (string * decoder);
   src_after : decoder;
-  src_fallback : decoder
+  src_fallback : decoder;
+  src_writers : list (string * open_mode)
 }.
 
 Definition c09_ok (s:source) (c:c09_case) : bool :=
@@ -44,5 +46,10 @@ Definition c09_ok (s:source) (c:c09_case) : bool :=
   | CDispatch path d fd =>
       decoder_eqb (dispatch (src_cases s) (src_after s) (B path)) d &&
       decoder_eqb (dispatch_file (src_cases s) (src_after s) (src_fallback s) (B path)) fd
+  | CFile w old enc after =>
+      match find (fun p => String.eqb (fst p) w) (src_writers s) with
+      | Some (_, m) => option_eqb bytes_eqb (written m (option_map B old) (B enc)) (Some (B after))
+      | None => false
+      end
   | CPost cn m out => option_eqb pmodule_eqb (post cn m) out
   end.
